@@ -2,7 +2,7 @@ import Model.LogRt
 /-! REGENERATED on every run by harness/cmd/go2lean -spec log from log/context_utils.go and log/custom_level.go. Do not edit.
 Each definition follows the Go function of the same name statement by statement; Model/LogRt.lean fixes what
 the primitives mean.  Functions that touch holders, contexts or the global logger are `do` blocks in `LogRt.M`
-(`fuel` bounds `for {}`), the others plain definitions; a func literal is lifted to `<function>.func<n>` over the
+(all take `fuel`, the bound of `for {}`), the others plain definitions; a func literal is lifted to `<function>.func<n>` over the
 variables it captures; a receiver `c *customLevelCoreWrapper` is its two fields; `z` is zap (`LogRt.Zap`).
 `logHolder.update.steps` is `(*logHolder).update` once more, as the step program of one goroutine (`LogRt.Prog`).
 Not translated: TestContext (builds a context around zaptest.NewLogger(t); the holder/context part is InitLogger's).
@@ -59,7 +59,7 @@ def logHolder.update.steps : StepProg where
     Prog.fall
 
 /-- `func getOrDefault(ctx context.Context) (*logHolder, bool)` -/
-def getOrDefault (z : Zap) (ctx : Ctx) : M (Holder × Bool) := do
+def getOrDefault (fuel : Nat) (z : Zap) (ctx : Ctx) : M (Holder × Bool) := do
   let r1 := ctxHolder ctx
   let mut lh : Holder := r1.1
   let mut ok : Bool := r1.2
@@ -70,7 +70,7 @@ def getOrDefault (z : Zap) (ctx : Ctx) : M (Holder × Bool) := do
   return (lh, false)
 
 /-- `func InitLogger(ctx context.Context, fields ...zap.Field) context.Context` -/
-def InitLogger (z : Zap) (ctx : Ctx) (fields : List ZField) : M Ctx := do
+def InitLogger (fuel : Nat) (z : Zap) (ctx : Ctx) (fields : List ZField) : M Ctx := do
   let mut ctx := ctx
   let mut lh : Holder := (← newHolder)
   store lh (z.loggerWith (← globalLogger) fields)
@@ -78,9 +78,9 @@ def InitLogger (z : Zap) (ctx : Ctx) (fields : List ZField) : M Ctx := do
   return ctx
 
 /-- `func ChildLogger(ctx context.Context, fields ...zap.Field) context.Context` -/
-def ChildLogger (z : Zap) (ctx : Ctx) (fields : List ZField) : M Ctx := do
+def ChildLogger (fuel : Nat) (z : Zap) (ctx : Ctx) (fields : List ZField) : M Ctx := do
   let mut ctx := ctx
-  let r1 := (← getOrDefault z ctx)
+  let r1 := (← getOrDefault fuel z ctx)
   let mut lh : Holder := r1.1
   let mut newLogger : Logger := (z.loggerWith (← load lh) fields)
   lh := (← newHolder)
@@ -89,8 +89,8 @@ def ChildLogger (z : Zap) (ctx : Ctx) (fields : List ZField) : M Ctx := do
   return ctx
 
 /-- `func Log(ctx context.Context) *zap.Logger` -/
-def Log (z : Zap) (ctx : Ctx) : M Logger := do
-  let r1 := (← getOrDefault z ctx)
+def Log (fuel : Nat) (z : Zap) (ctx : Ctx) : M Logger := do
+  let r1 := (← getOrDefault fuel z ctx)
   let mut lh : Holder := r1.1
   return (← load lh)
 
@@ -101,7 +101,7 @@ def SetLevel.func1 (z : Zap) (level : ZLevel) (logger : Logger) : Logger :=
 /-- `func SetLevel(ctx context.Context, level zapcore.Level) context.Context` -/
 def SetLevel (fuel : Nat) (z : Zap) (ctx : Ctx) (level : ZLevel) : M Ctx := do
   let mut ctx := ctx
-  let r1 := (← getOrDefault z ctx)
+  let r1 := (← getOrDefault fuel z ctx)
   let mut lh : Holder := r1.1
   let mut ok : Bool := r1.2
   logHolder.update fuel z lh (SetLevel.func1 z level)
@@ -120,7 +120,7 @@ def WithFields.func1 (z : Zap) (fields : List ZField) (logger : Logger) : Logger
 /-- `func WithFields(ctx context.Context, fields ...zap.Field) context.Context` -/
 def WithFields (fuel : Nat) (z : Zap) (ctx : Ctx) (fields : List ZField) : M Ctx := do
   let mut ctx := ctx
-  let r1 := (← getOrDefault z ctx)
+  let r1 := (← getOrDefault fuel z ctx)
   let mut lh : Holder := r1.1
   let mut ok : Bool := r1.2
   logHolder.update fuel z lh (WithFields.func1 z fields)
